@@ -28,8 +28,8 @@ PROP_OPS = {"C10": ["Delete", "Pop"], "C11": ["Extend", "ExtendTypes", "ExtendSh
 ALLF = '{"F1p", "F2p", "F3p", "F4p", "F3r", "F3q", "F3a", "F2b", "F4b", "F3x", "F2y", "E"}'
 TIERS = {
     "quick": {
-        "C09": dict(InitFrags='{"F2p", "F4p", "F3r", "F3a", "F4b", "F3x", "E"}', ExtFrags='{"F1p", "F3p", "F3q", "F2b", "F2y"}',
-                    InitCells='{"none", "tri"}', MaxAtoms=8, MaxDepth=2, MaxMap=1, MaxDel=2, Dims="DimsQuick"),
+        "C09": dict(InitFrags='{"F2p", "F4p", "F3a", "F4b", "F3x", "E"}', ExtFrags='{"F1p", "F3p", "F2b", "F2y"}',
+                    InitCells='{"none", "tri"}', MaxAtoms=8, MaxDepth=2, MaxMap=1, MaxDel=1, Dims="DimsQuick"),
         "C10": dict(InitFrags='{"F2p", "F4p", "F3r", "F3a", "F4b", "F3x"}', ExtFrags='{"F1p", "F3p", "F2y"}',
                     InitCells='{"none"}', MaxAtoms=8, MaxDepth=2, MaxMap=1, MaxDel=3, Dims="DimsQuick"),
         "C11": dict(InitFrags='{"F2p", "F4p", "F3r", "F3a", "F4b", "F3x", "E"}', ExtFrags='{"F1p", "F3p", "F3q", "F2b", "F2y"}',
@@ -105,7 +105,7 @@ def _sigs(beh):
     return out
 
 
-def execute(beh, R, variant=0, rnd=None, cache=None):
+def execute(beh, R, variant=0, rnd=None, cache=None, probe=True, want_obj=False):
     """Run one behaviour on the real code.  Returns the list of observed transitions.
     cache: dict shared between behaviours; a behaviour whose prefix was already executed (same rendering,
     canonical variant) continues from a deep copy of the object that prefix produced."""
@@ -209,7 +209,7 @@ def execute(beh, R, variant=0, rnd=None, cache=None):
             after = project(other, R)
             if after != src:
                 rec["src_same"] = "no"
-            elif n == nsteps - 1 and op in ("Replicate", "Subset", "Copy") and other is not atoms:
+            elif probe and n == nsteps - 1 and op in ("Replicate", "Subset", "Copy") and other is not atoms:
                 # independence probe: the result is a separate object; mutating it must not reach the source
                 try:
                     with contextlib.redirect_stderr(io.StringIO()), contextlib.redirect_stdout(io.StringIO()):
@@ -223,6 +223,8 @@ def execute(beh, R, variant=0, rnd=None, cache=None):
         steps.append(rec)
         if cache is not None and variant == 0 and n < nsteps - 1 or (cache is not None and variant == 0 and op not in ("Replicate", "Subset", "Copy")):
             cache[(R.name, sigs[n])] = (copy.deepcopy(atoms), dict(held), list(steps))
+    if want_obj:
+        return steps, atoms
     return steps
 
 
@@ -410,6 +412,9 @@ def run(prop, tier, replay=None):
                        "exc_msg": rec.get("exc_msg", "")}
                 out.violation(sig, {"behaviour": b[: n + 1], "rendering": R.describe(), "variant": var, "step": n,
                                     "observed": rec})
+    if prop == "C09" and not replay:
+        from . import lmpops
+        lmpops.writable_check(out, behs, sd, 1200 if tier == "quick" else 20000)
     out.notes["rejected_by_op_and_clause"] = {"%s/%s" % k: n for k, n in sorted(by_clause.items())}
     out.assumptions = ["projection/rendering code in harness/katoms.py (mechanical array dump, integer decoding)",
                        "TLC explores the bounded instance given in the evidence 'models' entry",
